@@ -136,6 +136,22 @@ def poly_assignments(repo, func):
 def series_tables(repo, rep, func, dist_amp_note):
     """R-TABLE for the A and B polynomials of a Vincenty routine; returns (Acoef, Bcoef) to be used by the formula oracle"""
     pas = poly_assignments(repo, func)
+    # the series may live in a helper called by the routine (same module, one or two levels)
+    from ..resolve import Resolver
+    from ..model import Func as _Func, calls_in as _calls_in
+    rs = Resolver(repo)
+    seen = {func.key}
+    frontier = [func]
+    for _ in range(2):
+        nxt = []
+        for g in frontier:
+            for c in _calls_in(g.node):
+                t = rs.callee(g, c)
+                if isinstance(t, _Func) and t.module is func.module and t.key not in seen:
+                    seen.add(t.key)
+                    nxt.append(t)
+                    pas.extend(poly_assignments(repo, t))
+        frontier = nxt
     A = [p for p in pas if p[2].get(0, 0) == 1]
     B = [p for p in pas if p[2].get(0, 0) == 0 and p[2].get(1, 0) != 0]
     base = 'R-TABLE::%s::%s::' % (func.module.relpath, func.qualname)
